@@ -27,41 +27,82 @@ Qed.
 Lemma rpc_eqb_refl : forall r, rpc_eqb r r = true.
 Proof. destruct r; reflexivity. Qed.
 
+Lemma commit_calls_sub : forall scs v vac n, In n (fst (commit_calls scs v vac)) -> In n vac.
+Proof.
+  induction vac as [|x vac IH]; simpl; intros n H; [exact H|].
+  destruct (is_cm_hang (sget scs v x)).
+  - simpl in H. destruct H as [->|[]]. now left.
+  - destruct (commit_calls scs v vac) as [cs h]; simpl in *. destruct H as [->|H]; [now left|right; auto].
+Qed.
+
+Lemma commit_calls_nohang : forall scs v vac, snd (commit_calls scs v vac) = false ->
+  fst (commit_calls scs v vac) = vac.
+Proof.
+  induction vac as [|x vac IH]; simpl; intros H; [reflexivity|].
+  destruct (is_cm_hang (sget scs v x)); [discriminate|].
+  destruct (commit_calls scs v vac) as [cs h]; simpl in *. now rewrite IH.
+Qed.
+
+(* ---------- the shape of a round's log (any state, any master-side events) ---------- *)
+Lemma round_log_shape : forall c s scs mid v locs,
+  let r := vacuum_round c s scs mid v locs in
+  let vac := fst (check_phase scs v locs) in
+  r_log r = [] \/ r_log r = check_log scs v locs \/
+  (compact_ok scs v vac = true /\
+   r_log r = check_log scs v locs ++ map (mk v RCompact) vac ++ map (mk v RCommit) (fst (commit_calls scs v vac))) \/
+  (compact_ok scs v vac = false /\
+   r_log r = check_log scs v locs ++ map (mk v RCompact) vac ++ map (mk v RCleanup) vac).
+Proof.
+  intros c s scs mid v locs; cbv zeta; unfold vacuum_round.
+  destruct (bs_true v (l_ro (s_lay s))); [now left|].
+  destruct (check_phase scs v locs) as [vac need]; cbn [fst].
+  destruct need; [|right; now left].
+  destruct (compact_ok scs v vac) eqn:Eok.
+  - destruct (commit_calls scs v vac) as [called hung]; cbn [fst].
+    right; right; left; split; [reflexivity|].
+    destruct hung; [reflexivity|]. destruct (commit_ok scs v vac); [|reflexivity].
+    destruct (detached _ _ _); reflexivity.
+  - right; right; right; split; reflexivity.
+Qed.
+
 (* ---------- clause 2: commit only after every compaction succeeded ---------- *)
-Lemma commit_only_after_compact : forall c ns scs v locs l n,
-  let r := vacuum_round c ns scs v locs l in
+Lemma got_check_log : forall scs v locs v' n r, r <> RCheck -> got (check_log scs v locs) v' n r = false.
+Proof.
+  intros scs v locs v' n r Hr; unfold check_log. rewrite got_phase.
+  destruct r; try congruence; simpl; now rewrite andb_false_r.
+Qed.
+
+Lemma commit_only_after_compact : forall c s scs mid v locs n,
+  let r := vacuum_round c s scs mid v locs in
   got (r_log r) v n RCommit = true ->
   let vac := fst (check_phase scs v locs) in
   In n vac /\ compact_ok scs v vac = true /\ is_cp_ok (sget scs v n) = true /\
   got (r_log r) v n RCompact = true /\ got (r_log r) v n RCleanup = false.
 Proof.
-  intros c ns scs v locs l n r; subst r; unfold vacuum_round.
-  destruct (bs_true v (l_ro l)); [intros H; discriminate|].
-  destruct (check_phase scs v locs) as [vac need] eqn:Ec; cbv zeta; cbn [fst].
-  assert (Hfin : compact_ok scs v vac = true -> mem n vac = true ->
-            In n vac /\ compact_ok scs v vac = true /\ is_cp_ok (sget scs v n) = true).
-  { intros Hok Hm. apply mem_In in Hm. repeat split; auto.
-    unfold compact_ok in Hok. rewrite forallb_forall in Hok. now apply Hok. }
-  destruct need.
-  - destruct (compact_ok scs v vac) eqn:Eok.
-    + destruct (commit_ok scs v vac); cbn [r_log]; intros H;
-        rewrite !got_app, !got_phase, N.eqb_refl in H; simpl in H;
-        destruct (Hfin eq_refl H) as (A & B & C);
-        rewrite !got_app, !got_phase, N.eqb_refl; simpl; rewrite H; simpl; repeat split; auto.
-    + cbn [r_log]. intros H. rewrite !got_app, !got_phase, N.eqb_refl in H. simpl in H. discriminate.
-  - cbn [r_log]. intros H. rewrite got_phase, N.eqb_refl in H. simpl in H. discriminate.
+  intros c s scs mid v locs n r H vac.
+  pose proof (round_log_shape c s scs mid v locs) as S. cbv zeta in S. fold r in S. fold vac in S.
+  destruct S as [E|[E|[[Hok E]|[Hok E]]]]; rewrite E in *.
+  - discriminate.
+  - rewrite got_check_log in H by discriminate. discriminate.
+  - rewrite !got_app, got_check_log, !got_phase, N.eqb_refl in H by discriminate. simpl in H.
+    assert (Hin : In n vac) by (apply commit_calls_sub with scs v; now apply mem_In).
+    repeat split; auto.
+    + unfold compact_ok in Hok. rewrite forallb_forall in Hok. now apply Hok.
+    + rewrite !got_app, !got_phase, N.eqb_refl. apply mem_In in Hin. rewrite Hin. simpl. apply orb_true_r.
+    + rewrite !got_app, got_check_log, !got_phase by discriminate. simpl. now rewrite !andb_false_r.
+  - rewrite !got_app, got_check_log, !got_phase in H by discriminate. simpl in H.
+    rewrite !andb_false_r in H. discriminate.
 Qed.
 
-(* the log of a whole layout pass: the entries for vid v come from v's rounds *)
-Lemma round_log_vid : forall c ns scs v locs l e, In e (r_log (vacuum_round c ns scs v locs l)) -> e_vid e = v.
+Lemma round_log_vid : forall c s scs mid v locs e, In e (r_log (vacuum_round c s scs mid v locs)) -> e_vid e = v.
 Proof.
-  intros c ns scs v locs l e; unfold vacuum_round.
-  destruct (bs_true v (l_ro l)); [intros []|].
-  destruct (check_phase scs v locs) as [vac need].
+  intros c s scs mid v locs e.
   assert (H : forall r ns', In e (map (mk v r) ns') -> e_vid e = v).
   { intros r ns' Hin. apply in_map_iff in Hin. destruct Hin as (x & <- & _). reflexivity. }
-  destruct need; [destruct (compact_ok scs v vac); [destruct (commit_ok scs v vac)|]|]; simpl;
-    rewrite ?in_app_iff; intuition eauto.
+  intros Hin. pose proof (round_log_shape c s scs mid v locs) as S. cbv zeta in S.
+  destruct S as [E|[E|[[_ E]|[_ E]]]]; rewrite E in Hin; unfold check_log in Hin;
+    rewrite ?in_app_iff in Hin; try (now destruct Hin);
+    repeat (destruct Hin as [Hin|Hin]); eauto.
 Qed.
 
 Lemma filter_none : forall {A} (f : A -> bool) l, (forall x, In x l -> f x = false) -> filter f l = [].
@@ -70,39 +111,40 @@ Proof.
   rewrite (H x (or_introl eq_refl)). apply IH. intros y Hy; apply H; now right.
 Qed.
 
-Lemma got_other_vid : forall c ns scs v v' locs l n r, v <> v' ->
-  got (r_log (vacuum_round c ns scs v locs l)) v' n r = false.
+Lemma got_other_vid : forall c s scs mid v v' locs n r, v <> v' ->
+  got (r_log (vacuum_round c s scs mid v locs)) v' n r = false.
 Proof.
-  intros c ns scs v v' locs l n r Hne. unfold got, log_of.
+  intros c s scs mid v v' locs n r Hne. unfold got, log_of.
   rewrite filter_none; [reflexivity|].
   intros e He. apply round_log_vid in He. rewrite He.
   destruct (v =? v') eqn:E; [apply N.eqb_eq in E; congruence|reflexivity].
 Qed.
 
-Lemma layout_commit_only_after_compact : forall c ns scs l v n,
-  got (r_log (vacuum_layout c ns scs l)) v n RCommit = true ->
-  exists locs l', In (v, locs) (l_loc l) /\
-    let r := vacuum_round c ns scs v locs l' in
+(* the log of a whole pass over a layout: the entries for vid v come from v's rounds *)
+Lemma layout_commit_only_after_compact : forall c scs mids s v n,
+  got (q_log (vacuum_layout c scs mids s)) v n RCommit = true ->
+  exists locs s', In (v, locs) (l_loc (s_lay s)) /\
+    let r := vacuum_round c s' scs (mids v) v locs in
     let vac := fst (check_phase scs v locs) in
     In n vac /\ compact_ok scs v vac = true /\ is_cp_ok (sget scs v n) = true /\
     got (r_log r) v n RCompact = true /\ got (r_log r) v n RCleanup = false.
 Proof.
-  intros c ns scs l v n. unfold vacuum_layout.
-  assert (G : forall ps r0,
-    got (r_log (fold_left (fun r p =>
-        let r' := vacuum_round c ns scs (fst p) (snd p) (r_lay r) in
-        {| r_lay := r_lay r'; r_log := r_log r ++ r_log r' |}) ps r0)) v n RCommit = true ->
-    got (r_log r0) v n RCommit = true \/
-    exists locs l', In (v, locs) ps /\ got (r_log (vacuum_round c ns scs v locs l')) v n RCommit = true).
-  { induction ps as [|[v0 locs0] ps IH]; intros r0 H; simpl in *; [now left|].
-    destruct (IH _ H) as [H1|(locs & l' & Hin & H1)].
-    - simpl in H1. rewrite got_app in H1. apply orb_true_iff in H1. destruct H1 as [H1|H1]; [now left|].
+  intros c scs mids s v n. unfold vacuum_layout.
+  assert (G : forall ps q0,
+    got (q_log (fold_left (round_step c scs mids) ps q0)) v n RCommit = true ->
+    got (q_log q0) v n RCommit = true \/
+    exists locs s', In (v, locs) ps /\ got (r_log (vacuum_round c s' scs (mids v) v locs)) v n RCommit = true).
+  { induction ps as [|[v0 locs0] ps IH]; intros q0 H; simpl in *; [now left|].
+    destruct (IH _ H) as [H1|(locs & s' & Hin & H1)].
+    - unfold round_step in H1. destruct (q_hung q0 || q_panic q0); [now left|].
+      cbn [q_log fst snd] in H1. rewrite got_app in H1. apply orb_true_iff in H1.
+      destruct H1 as [H1|H1]; [now left|].
       right. destruct (N.eq_dec v0 v) as [->|Hne].
-      + exists locs0, (r_lay r0); split; [now left|exact H1].
+      + exists locs0, (q_st q0); split; [now left|exact H1].
       + rewrite got_other_vid in H1 by assumption. discriminate.
-    - right. exists locs, l'; split; [now right|exact H1]. }
-  intros H. destruct (G _ _ H) as [H1|(locs & l' & Hin & H1)]; [discriminate|].
-  exists locs, l'; split; [exact Hin|]. now apply commit_only_after_compact.
+    - right. exists locs, s'; split; [now right|exact H1]. }
+  intros H. destruct (G _ _ H) as [H1|(locs & s' & Hin & H1)]; [discriminate|].
+  exists locs, s'; split; [exact Hin|]. now apply commit_only_after_compact.
 Qed.
 
 (* ---------- clause 1: replicas keep the same live content ---------- *)
@@ -126,9 +168,22 @@ Section Content.
     intros log scs v before n m H; unfold content_after.
     destruct (committed log scs v n), (committed log scs v m); now rewrite ?compact_preserves_live.
   Qed.
+
+  (* ... for the log of a round, whatever the state, the scripts and the events;
+     and a replica whose files are swapped had a successful compaction *)
+  Lemma same_content_round : forall c s scs mid v locs before n m,
+    let log := r_log (vacuum_round c s scs mid v locs) in
+    live (before n) = live (before m) ->
+    live (content_after log scs v before n) = live (content_after log scs v before m) /\
+    (committed log scs v n = true -> is_cp_ok (sget scs v n) = true /\ got log v n RCleanup = false).
+  Proof.
+    intros c s scs mid v locs before n m log H; split; [now apply same_content|].
+    unfold committed. intros Hc. apply andb_true_iff in Hc. destruct Hc as [Hc _].
+    pose proof (commit_only_after_compact c s scs mid v locs n Hc) as K. cbv zeta in K. tauto.
+  Qed.
 End Content.
 
-(* ---------- clause 3: writable afterwards iff the criterion holds ---------- *)
+(* ---------- clause 3: writable afterwards ---------- *)
 Lemma forallb_same_members : forall {A} (f : A -> bool) l1 l2,
   (forall x, In x l1 <-> In x l2) -> forallb f l1 = forallb f l2.
 Proof.
@@ -145,14 +200,30 @@ Proof.
   rewrite (Hloc v n). symmetry. now apply holders_spec.
 Qed.
 
-Lemma set_available_mono : forall c ns n v ro l,
-  mem v (l_writ l) = true -> mem v (l_writ (set_available c ns n v ro l)) = true.
+Lemma loc_In_aget : forall l v n, In n (loc l v) -> exists locs, aget v (l_loc l) = Some locs /\ In n locs.
+Proof. intros l v n H; unfold loc in H. destruct (aget v (l_loc l)) as [x|]; [eauto|destruct H]. Qed.
+
+(* one SetVolumeAvailable(n, v, false) on a replica the layout lists *)
+Lemma set_available_step : forall c ns n v l, In n (loc l v) ->
+  mem v (l_writ (set_available c ns n v false l)) =
+  mem v (l_writ l) || (replica_rw ns v n && enough c (nlen (loc l v))).
 Proof.
-  intros c ns n v ro l H; unfold set_available.
-  destruct (ginfo ns n v); [|exact H]. destruct (aget v (l_loc l)); [|exact H].
-  destruct (vi_ro v0 || ro); [exact H|].
-  destruct (enough c _); [|exact H].
-  unfold set_writable; simpl. rewrite H. exact H.
+  intros c ns n v l Hin. destruct (loc_In_aget l v n Hin) as (locs & El & Hn).
+  unfold set_available, replica_rw. destruct (ginfo ns n v) as [i|]; [|now rewrite orb_false_r].
+  rewrite El.
+  assert (Hl : lset n locs = locs) by (unfold lset; apply mem_In in Hn; now rewrite Hn).
+  rewrite Hl, orb_false_r. destruct (vi_ro i); simpl; [now rewrite orb_false_r|].
+  unfold loc at 1; simpl. rewrite aget_aset_eq. unfold loc; rewrite El.
+  destruct (enough c (nlen locs)); simpl; [|now rewrite orb_false_r].
+  unfold set_writable; simpl. destruct (mem v (l_writ l)) eqn:Em; simpl; [exact Em|].
+  rewrite mem_snoc, N.eqb_refl. apply orb_true_r.
+Qed.
+
+Lemma set_available_ro : forall c ns n v l,
+  mem v (l_writ (set_available c ns n v true l)) = mem v (l_writ l).
+Proof.
+  intros c ns n v l; unfold set_available. destruct (ginfo ns n v); [|reflexivity].
+  destruct (aget v (l_loc l)); [|reflexivity]. now rewrite orb_true_r.
 Qed.
 
 Lemma set_available_loc : forall c ns n v ro l, In n (loc l v) ->
@@ -170,112 +241,467 @@ Proof.
   apply K. unfold set_writable; simpl. now destruct (mem v (l_writ l)).
 Qed.
 
-Lemma fold_available_mono : forall c ns v ro vac l,
-  mem v (l_writ l) = true ->
-  mem v (l_writ (fold_left (fun l' n => set_available c ns n v ro l') vac l)) = true.
+(* the other vids' location lists, readonlyVolumes and oversizedVolumes are not touched *)
+Lemma set_available_ro_os : forall c ns n v ro l,
+  l_ro (set_available c ns n v ro l) = l_ro l /\ l_os (set_available c ns n v ro l) = l_os l.
 Proof.
-  induction vac as [|n vac IH]; intros l H; simpl; [exact H|]. apply IH. now apply set_available_mono.
+  intros c ns n v ro l; unfold set_available. destruct (ginfo ns n v); [|now split].
+  destruct (aget v (l_loc l)); [|now split]. destruct (vi_ro v0 || ro); [now split|].
+  destruct (enough c _); [|now split]. unfold set_writable; simpl. now destruct (mem v (l_writ l)).
 Qed.
 
+Definition fold_av (c : cfg) (ns : nodes) (v : N) (ro : bool) (vac : list N) (l : layout) : layout :=
+  fold_left (fun l' n => set_available c ns n v ro l') vac l.
+
+Lemma fold_av_frame : forall c ns v ro vac l, (forall n, In n vac -> In n (loc l v)) ->
+  loc (fold_av c ns v ro vac l) v = loc l v /\
+  l_ro (fold_av c ns v ro vac l) = l_ro l /\ l_os (fold_av c ns v ro vac l) = l_os l.
+Proof.
+  unfold fold_av. induction vac as [|n vac IH]; intros l H; simpl; [now repeat split|].
+  assert (Hn : In n (loc l v)) by (apply H; now left).
+  destruct (IH (set_available c ns n v ro l)) as (A & B & C).
+  { intros m Hm. rewrite set_available_loc by exact Hn. apply H; now right. }
+  rewrite A, B, C, set_available_loc by exact Hn.
+  destruct (set_available_ro_os c ns n v ro l) as [-> ->]. now repeat split.
+Qed.
+
+Lemma fold_av_exact : forall c ns v vac l, (forall n, In n vac -> In n (loc l v)) ->
+  mem v (l_writ (fold_av c ns v false vac l)) =
+  mem v (l_writ l) || (enough c (nlen (loc l v)) && existsb (replica_rw ns v) vac).
+Proof.
+  unfold fold_av. induction vac as [|n vac IH]; intros l H; simpl.
+  - now rewrite andb_false_r, orb_false_r.
+  - assert (Hn : In n (loc l v)) by (apply H; now left).
+    rewrite IH.
+    + rewrite set_available_loc, set_available_step by exact Hn.
+      destruct (mem v (l_writ l)), (replica_rw ns v n), (enough c (nlen (loc l v))); reflexivity.
+    + intros m Hm. rewrite set_available_loc by exact Hn. apply H; now right.
+Qed.
+
+Lemma fold_av_ro : forall c ns v vac l, mem v (l_writ (fold_av c ns v true vac l)) = mem v (l_writ l).
+Proof.
+  unfold fold_av. induction vac as [|n vac IH]; intros l; simpl; [reflexivity|].
+  now rewrite IH, set_available_ro.
+Qed.
+
+(* no panic while the layout has an entry for v *)
+Lemma set_available_keeps_entry : forall c ns n v ro l,
+  aget v (l_loc l) <> None -> aget v (l_loc (set_available c ns n v ro l)) <> None.
+Proof.
+  intros c ns n v ro l H; unfold set_available. destruct (ginfo ns n v); [|exact H].
+  destruct (aget v (l_loc l)) as [locs|] eqn:E; [|now rewrite E].
+  assert (K : forall l', l_loc l' = aset v (lset n locs) (l_loc l) -> aget v (l_loc l') <> None).
+  { intros l' ->. now rewrite aget_aset_eq. }
+  destruct (vi_ro v0 || ro); [now apply K|]. destruct (enough c _); [|now apply K].
+  apply K. unfold set_writable; simpl. now destruct (mem v (l_writ l)).
+Qed.
+
+Lemma fold_set_av_ok : forall c held v ro vac l, aget v (l_loc l) <> None ->
+  fold_left (set_av c held v ro) vac (l, false) = (fold_av c held v ro vac l, false).
+Proof.
+  unfold fold_av. induction vac as [|n vac IH]; intros l H; simpl; [reflexivity|].
+  unfold set_av at 2; cbn [fst snd].
+  destruct (ginfo held n v) as [i|] eqn:Eg.
+  - destruct (aget v (l_loc l)) eqn:E; [|congruence].
+    rewrite IH; [reflexivity|]. apply set_available_keeps_entry. congruence.
+  - rewrite IH by exact H. f_equal. f_equal. unfold set_available. now rewrite Eg.
+Qed.
+
+(* ---------- rounds without master-side events ---------- *)
 Definition round_of (c : cfg) (s : state) (scs : scripts) (v : N) : round :=
-  vacuum_round c (s_nodes s) scs v (lookup s v) (s_lay s).
+  vacuum_round c s scs [] v (lookup s v).
 
 Definition writable_after (c : cfg) (s : state) (scs : scripts) (v : N) : bool :=
   mem v (l_writ (r_lay (round_of c s scs v))).
 
-(* the statement at full strength, for the reachable states of the master *)
+Lemma vac_sub : forall scs v locs n, In n (fst (check_phase scs v locs)) -> In n locs.
+Proof. intros scs v locs n H; unfold check_phase in H; simpl in H. apply filter_In in H. tauto. Qed.
+
+Lemma need_nonempty : forall scs v locs, snd (check_phase scs v locs) = true -> fst (check_phase scs v locs) <> [].
+Proof.
+  intros scs v locs H E; unfold check_phase in *; simpl in *. rewrite E in H.
+  now rewrite andb_false_r in H.
+Qed.
+
+(* the layout a round without events leaves, in terms of the outcome class *)
+Lemma round_of_lay : forall c s scs v,
+  let l := s_lay s in let vac := vac_of scs l v in
+  r_lay (round_of c s scs v) =
+    if reaches_compact scs l v then
+      if compact_ok scs v vac && negb (snd (commit_calls scs v vac)) && commit_ok scs v vac
+      then fold_av c (s_nodes s) v (commit_ro scs v vac) vac (remove_writable v l)
+      else remove_writable v l
+    else l.
+Proof.
+  intros c s scs v; cbv zeta. unfold round_of, vacuum_round, reaches_compact, vac_of, lookup, r_lay.
+  destruct (bs_true v (l_ro (s_lay s))); [reflexivity|].
+  destruct (check_phase scs v (loc (s_lay s) v)) as [vac need] eqn:Ec; cbn [fst snd negb andb].
+  destruct need; [|reflexivity].
+  destruct (compact_ok scs v vac); cbn [andb]; [|reflexivity].
+  destruct (commit_calls scs v vac) as [called hung]; cbn [snd].
+  destruct hung; cbn [negb andb]; [reflexivity|].
+  destruct (commit_ok scs v vac); [|reflexivity].
+  cbn [detached trace existsb run fold_left held_nodes dead_of with_lay s_nodes s_lay].
+  rewrite fold_set_av_ok; [reflexivity|].
+  cbn [remove_writable with_writ l_loc].
+  assert (Hne : vac <> []).
+  { pose proof (need_nonempty scs v (loc (s_lay s) v)) as K. rewrite Ec in K. now apply K. }
+  destruct vac as [|n vac]; [congruence|].
+  assert (Hn : In n (loc (s_lay s) v)).
+  { apply (vac_sub scs v). rewrite Ec. now left. }
+  destruct (loc_In_aget _ _ _ Hn) as (locs & -> & _). discriminate.
+Qed.
+
+Lemma round_of_flags : forall c s scs v,
+  r_hung (round_of c s scs v) = trigger_hang scs (s_lay s) v /\ r_panic (round_of c s scs v) = false /\
+  s_nodes (r_st (round_of c s scs v)) = s_nodes s.
+Proof.
+  intros c s scs v. unfold round_of, vacuum_round, trigger_hang, reaches_compact, vac_of, lookup.
+  destruct (bs_true v (l_ro (s_lay s))); [now repeat split|].
+  destruct (check_phase scs v (loc (s_lay s) v)) as [vac need] eqn:Ec; cbn [fst snd negb andb].
+  destruct need; [|now repeat split].
+  destruct (compact_ok scs v vac); cbn [andb]; [|now repeat split].
+  destruct (commit_calls scs v vac) as [called hung]; cbn [snd].
+  destruct hung; [now repeat split|].
+  destruct (commit_ok scs v vac); [|now repeat split].
+  cbn [detached trace existsb run fold_left held_nodes dead_of with_lay s_nodes s_lay].
+  rewrite fold_set_av_ok; [now repeat split|].
+  cbn [remove_writable with_writ l_loc].
+  assert (Hne : vac <> []).
+  { pose proof (need_nonempty scs v (loc (s_lay s) v)) as K. rewrite Ec in K. now apply K. }
+  destruct vac as [|n vac]; [congruence|].
+  assert (Hn : In n (loc (s_lay s) v)).
+  { apply (vac_sub scs v). rewrite Ec. now left. }
+  destruct (loc_In_aget _ _ _ Hn) as (locs & -> & _). discriminate.
+Qed.
+
+(* what a round touches: only the writables (and nothing at all when the compact
+   phase is not reached) *)
+Lemma round_of_frame : forall c s scs v,
+  let r := round_of c s scs v in
+  loc (r_lay r) v = loc (s_lay s) v /\ l_ro (r_lay r) = l_ro (s_lay s) /\ l_os (r_lay r) = l_os (s_lay s).
+Proof.
+  intros c s scs v; cbv zeta. rewrite round_of_lay; cbv zeta.
+  destruct (reaches_compact scs (s_lay s) v); [|now repeat split].
+  destruct (_ && _ && _); [|now repeat split].
+  apply (fold_av_frame c (s_nodes s) v _ (vac_of scs (s_lay s) v) (remove_writable v (s_lay s))).
+  intros n Hn. change (loc (remove_writable v (s_lay s)) v) with (loc (s_lay s) v).
+  now apply (vac_sub scs v).
+Qed.
+
+Lemma no_compact_no_change : forall c s scs mid v,
+  reaches_compact scs (s_lay s) v = false ->
+  let r := vacuum_round c s scs mid v (loc (s_lay s) v) in
+  r_st r = s /\ r_hung r = false /\ r_panic r = false /\
+  (r_log r = [] \/ r_log r = check_log scs v (loc (s_lay s) v)).
+Proof.
+  intros c s scs mid v H; cbv zeta. unfold vacuum_round, reaches_compact in *.
+  destruct (bs_true v (l_ro (s_lay s))); [repeat split; now left|].
+  destruct (check_phase scs v (loc (s_lay s) v)) as [vac need]; cbn [snd negb andb] in H. subst need.
+  repeat split; now right.
+Qed.
+
+Lemma NoDup_lremove_notin : forall v l, NoDup l -> mem v (lremove v l) = false.
+Proof.
+  intros v l H. apply mem_false. intros Hin.
+  apply (notin_lremove v l H). exact Hin.
+Qed.
+
+(* the exact value of "writable after the round" on the reachable states *)
+Lemma after_exact : forall c s scs v, Inv c s ->
+  writable_after c s scs v =
+    if reaches_compact scs (s_lay s) v
+    then full_success scs (s_lay s) v && readmit_test c (s_nodes s) scs (s_lay s) v
+    else writable s v.
+Proof.
+  intros c s scs v HI. unfold writable_after. rewrite round_of_lay; cbv zeta.
+  unfold full_success, readmit_test.
+  destruct (reaches_compact scs (s_lay s) v) eqn:Er; [|reflexivity]. cbn [andb].
+  assert (Hrm : mem v (l_writ (remove_writable v (s_lay s))) = false).
+  { apply NoDup_lremove_notin. destruct HI as [[Hnd _] _ _ _]. exact Hnd. }
+  set (vac := vac_of scs (s_lay s) v) in *.
+  destruct (compact_ok scs v vac); cbn [andb]; [|exact Hrm].
+  destruct (snd (commit_calls scs v vac)); cbn [negb andb]; [exact Hrm|].
+  destruct (commit_ok scs v vac); cbn [andb]; [|exact Hrm].
+  destruct (commit_ro scs v vac); cbn [negb andb].
+  - now rewrite fold_av_ro.
+  - rewrite fold_av_exact, Hrm; [reflexivity|].
+    intros n Hn. now apply (vac_sub scs v).
+Qed.
+
+(* a writable volume passes SetVolumeAvailable's test (C11 invariant) *)
+Lemma writable_passes_test : forall c s scs v, Inv c s ->
+  reaches_compact scs (s_lay s) v = true -> writable s v = true ->
+  readmit_test c (s_nodes s) scs (s_lay s) v = true.
+Proof.
+  intros c s scs v HI Er Hw. destruct HI as [_ _ Hloc HI3]. specialize (HI3 v Hw).
+  destruct HI3 as [Hen Hrw]. unfold readmit_test. cbn [view_of w_loc] in Hen, Hrw.
+  rewrite loc_olist, Hen. cbn [andb].
+  unfold reaches_compact in Er. apply andb_true_iff in Er. destruct Er as [_ Er].
+  pose proof (need_nonempty _ _ _ Er) as Hne. unfold vac_of.
+  destruct (fst (check_phase scs v (loc (s_lay s) v))) as [|n vac] eqn:Ev; [congruence|].
+  assert (Hn : In n (loc (s_lay s) v)) by (apply (vac_sub scs v); rewrite Ev; now left).
+  simpl. destruct (proj1 (Hloc v n) Hn) as [i Hi]. unfold replica_rw. rewrite Hi.
+  rewrite loc_olist in Hn. now rewrite (Hrw n i Hn Hi).
+Qed.
+
+(* the statement at full strength: the round leaves the volume writable exactly
+   when it was (a master that never vacuums keeps the writable set) *)
+Definition writable_unchanged (c : cfg) : Prop :=
+  forall es, wf_history es -> forall scs v,
+    let s := run c init es in writable_after c s scs v = writable s v.
+(* ... and in terms of the C11 criterion *)
 Definition writable_iff (c : cfg) : Prop :=
   forall es, wf_history es -> forall scs v,
     let s := run c init es in
     writable s v = crit c (s_nodes s) v -> writable_after c s scs v = crit c (s_nodes s) v.
+
+Lemma unchanged_partial_inv : forall c s scs v, Inv c s ->
+  trigger_stuck scs (s_lay s) v = false ->
+  trigger_readmit c (s_nodes s) scs (s_lay s) v = false ->
+  trigger_hang scs (s_lay s) v = false ->
+  writable_after c s scs v = writable s v.
+Proof.
+  intros c s scs v HI T0 T1 T2. rewrite after_exact by exact HI.
+  destruct (reaches_compact scs (s_lay s) v) eqn:Er; [|reflexivity].
+  unfold trigger_stuck, trigger_readmit in T0, T1. rewrite Er, T2 in T0. cbn [andb negb] in T0.
+  fold (writable s v) in T0, T1.
+  destruct (full_success scs (s_lay s) v) eqn:Ef; cbn [andb negb] in *.
+  - destruct (writable s v) eqn:Ew; cbn [negb andb] in T1; [|exact T1].
+    now apply writable_passes_test.
+  - now rewrite T0.
+Qed.
+
+Lemma writable_unchanged_partial : forall c, 1 <= c_copy c ->
+  forall es, wf_history es -> forall scs v,
+    let s := run c init es in
+    trigger_stuck scs (s_lay s) v = false ->
+    trigger_readmit c (s_nodes s) scs (s_lay s) v = false ->
+    trigger_hang scs (s_lay s) v = false ->
+    writable_after c s scs v = writable s v.
+Proof. intros c Hc es Hwf scs v s. apply unchanged_partial_inv. now apply reach_inv. Qed.
 
 Lemma writable_iff_partial : forall c, 1 <= c_copy c ->
   forall es, wf_history es -> forall scs v,
     let s := run c init es in
     trigger_stuck scs (s_lay s) v = false ->
     trigger_readmit c (s_nodes s) scs (s_lay s) v = false ->
+    trigger_hang scs (s_lay s) v = false ->
     writable s v = crit c (s_nodes s) v -> writable_after c s scs v = crit c (s_nodes s) v.
 Proof.
-  intros c Hc es Hwf scs v s T0 T1 Hpre.
-  pose proof (reach_inv c Hc es Hwf) as HI. fold s in HI.
-  pose proof (crit_loc_crit c s v HI) as Hcl.
-  unfold writable_after, round_of, vacuum_round.
-  unfold trigger_stuck, trigger_readmit, full_success, reaches_compact in T0, T1.
-  unfold lookup in *.
-  destruct (bs_true v (l_ro (s_lay s))) eqn:Ero; [exact Hpre|].
-  destruct (check_phase scs v (loc (s_lay s) v)) as [vac need] eqn:Ec.
-  cbn [fst snd negb andb] in T0, T1.
-  destruct need; [|exact Hpre]. cbn [andb] in T0, T1.
-  destruct (compact_ok scs v vac) eqn:E1; cbn [andb negb] in T0, T1; [|discriminate].
-  destruct (commit_ok scs v vac) eqn:E2; cbn [andb negb] in T0, T1; [|discriminate].
-  destruct (commit_ro scs v vac) eqn:E3; cbn [andb negb] in T0, T1; [discriminate|].
-  apply negb_false_iff in T1. rewrite <- Hcl, T1.
-  (* the first replica of the list re-admits the volume *)
-  assert (Hvac : vac = filter (fun n => is_over (sget scs v n)) (loc (s_lay s) v) /\ vac <> []).
-  { unfold check_phase in Ec. inversion Ec as [[F1 F2]]. split; [reflexivity|].
-    intros E. rewrite E in F2. rewrite !andb_false_r in F2. discriminate. }
-  destruct Hvac as [Hvac Hne]. destruct vac as [|n vac]; [congruence|]. simpl.
-  apply fold_available_mono.
-  assert (Hn : In n (loc (s_lay s) v)).
-  { assert (In n (n :: vac)) by now left. rewrite Hvac in H. apply filter_In in H. tauto. }
-  unfold crit_loc in T1. apply andb_true_iff in T1. destruct T1 as [Ten Tall].
-  rewrite forallb_forall in Tall. specialize (Tall n Hn). unfold replica_ok in Tall.
-  unfold set_available.
-  destruct (ginfo (s_nodes s) n v) as [i|]; [|discriminate].
-  apply andb_true_iff in Tall. destruct Tall as [Tro _]. apply negb_true_iff in Tro.
-  change (l_loc (remove_writable v (s_lay s))) with (l_loc (s_lay s)).
-  unfold loc in Hn, Ten. destruct (aget v (l_loc (s_lay s))) as [locs|] eqn:El; [|destruct Hn].
-  rewrite Tro; simpl.
-  assert (Hl : lset n locs = locs) by (unfold lset; apply mem_In in Hn; now rewrite Hn).
-  unfold loc; simpl. rewrite aget_aset_eq, Hl, Ten.
-  unfold set_writable; simpl.
-  destruct (mem v (lremove v (l_writ (s_lay s)))) eqn:Em; simpl; [exact Em|].
-  rewrite mem_snoc, N.eqb_refl. apply orb_true_r.
+  intros c Hc es Hwf scs v s T0 T1 T2 Hpre. rewrite <- Hpre.
+  now apply writable_unchanged_partial.
 Qed.
 
-(* ---------- the two confirmed defects ---------- *)
-Definition ok_script : script := {| sc_ck := CkOver; sc_cp := CpOk; sc_cm := CmOk |}.
-
-(* 0: a failed compaction leaves a healthy volume out of writables *)
-Lemma writable_iff_refuted_stuck : ~ writable_iff cfg000.
+(* every input inside a trigger is a violation: the triggers are exact *)
+Lemma stuck_exact : forall c, 1 <= c_copy c -> forall es, wf_history es -> forall scs v,
+  let s := run c init es in
+  trigger_stuck scs (s_lay s) v = true ->
+  writable s v = true /\ writable_after c s scs v = false /\ r_hung (round_of c s scs v) = false.
 Proof.
-  intros H.
-  specialize (H [EFull 1 [vi 1 10 false]] eq_refl [(1, [(1, {| sc_ck := CkOver; sc_cp := CpErr; sc_cm := CmOk |})])] 1).
-  vm_compute in H. specialize (H eq_refl). discriminate.
+  intros c Hc es Hwf scs v s T. pose proof (reach_inv c Hc es Hwf) as HI. fold s in HI.
+  rewrite after_exact by exact HI. unfold trigger_stuck in T.
+  apply andb_true_iff in T. destruct T as [T Hw]. apply andb_true_iff in T. destruct T as [T Hh].
+  apply andb_true_iff in T. destruct T as [Er Hf].
+  rewrite Er. apply negb_true_iff in Hf, Hh. rewrite Hf.
+  destruct (round_of_flags c s scs v) as (-> & _ & _). now repeat split.
 Qed.
+
+Lemma readmit_exact : forall c, 1 <= c_copy c -> forall es, wf_history es -> forall scs v,
+  let s := run c init es in
+  trigger_readmit c (s_nodes s) scs (s_lay s) v = true ->
+  writable s v = false /\ writable_after c s scs v = true.
+Proof.
+  intros c Hc es Hwf scs v s T. pose proof (reach_inv c Hc es Hwf) as HI. fold s in HI.
+  rewrite after_exact by exact HI. unfold trigger_readmit in T.
+  apply andb_true_iff in T. destruct T as [T Ht]. apply andb_true_iff in T. destruct T as [Hf Hw].
+  apply negb_true_iff in Hw. rewrite Hf, Ht.
+  assert (Er : reaches_compact scs (s_lay s) v = true).
+  { unfold full_success in Hf. destruct (reaches_compact scs (s_lay s) v); [reflexivity|discriminate]. }
+  rewrite Er. now split.
+Qed.
+
+(* 2: a commit that never answers: the round never returns, the volume stays out
+   of writables, and every later call of Topology.Vacuum returns at once *)
+Lemma hang_exact : forall c, 1 <= c_copy c -> forall es, wf_history es -> forall scs v,
+  let s := run c init es in
+  trigger_hang scs (s_lay s) v = true ->
+  r_hung (round_of c s scs v) = true /\ writable_after c s scs v = false.
+Proof.
+  intros c Hc es Hwf scs v s T. pose proof (reach_inv c Hc es Hwf) as HI. fold s in HI.
+  destruct (round_of_flags c s scs v) as (-> & _ & _). split; [exact T|].
+  rewrite after_exact by exact HI. unfold trigger_hang in T. unfold full_success.
+  apply andb_true_iff in T. destruct T as [T ->]. apply andb_true_iff in T. destruct T as [-> ->].
+  reflexivity.
+Qed.
+
+Lemma hung_blocks_later_passes : forall c q p, q_hung q = true -> q_panic q = false ->
+  let q' := pass_step c q p in
+  q_log q' = [] /\ q_hung q' = true /\ q_st q' = run c (q_st q) (p_pre p).
+Proof. intros c q p Hh Hp; cbv zeta; unfold pass_step. rewrite Hp, Hh. now repeat split. Qed.
+
+(* 5: a later round that ends in a clean commit puts a healthy volume back *)
+Lemma clean_round_writable : forall c s scs v,
+  crit_loc c (s_nodes s) (s_lay s) v = true -> full_success scs (s_lay s) v = true ->
+  writable_after c s scs v = true.
+Proof.
+  intros c s scs v Hcr Hf. unfold writable_after. rewrite round_of_lay; cbv zeta.
+  unfold full_success in Hf. fold (vac_of scs (s_lay s) v) in *.
+  set (vac := vac_of scs (s_lay s) v) in *.
+  destruct (reaches_compact scs (s_lay s) v) eqn:Er; [|discriminate]. cbn [andb] in Hf.
+  destruct (compact_ok scs v vac); [|discriminate]. cbn [andb] in Hf.
+  destruct (snd (commit_calls scs v vac)); [discriminate|]. cbn [negb andb] in Hf.
+  destruct (commit_ok scs v vac); [|discriminate]. cbn [andb] in Hf.
+  apply negb_true_iff in Hf. rewrite Hf. cbn [andb negb].
+  rewrite fold_av_exact by (intros n Hn; now apply (vac_sub scs v)).
+  change (loc (remove_writable v (s_lay s)) v) with (loc (s_lay s) v).
+  unfold crit_loc in Hcr. apply andb_true_iff in Hcr. destruct Hcr as [-> Hall]. cbn [andb].
+  unfold reaches_compact in Er. apply andb_true_iff in Er. destruct Er as [_ Er].
+  pose proof (need_nonempty _ _ _ Er) as Hne. subst vac. unfold vac_of in *.
+  destruct (fst (check_phase scs v (loc (s_lay s) v))) as [|n vac] eqn:Ev; [congruence|].
+  assert (Hn : In n (loc (s_lay s) v)) by (apply (vac_sub scs v); rewrite Ev; now left).
+  rewrite forallb_forall in Hall. specialize (Hall n Hn). unfold replica_ok in Hall.
+  simpl. unfold replica_rw. destruct (ginfo (s_nodes s) n v) as [i|]; [|discriminate].
+  apply andb_true_iff in Hall. destruct Hall as [-> _]. apply orb_true_r.
+Qed.
+
+Lemma recovers_on_next_clean_round : forall c s scs1 scs2 v,
+  crit_loc c (s_nodes s) (s_lay s) v = true ->
+  full_success scs2 (s_lay s) v = true ->
+  let r1 := round_of c s scs1 v in
+  writable_after c (r_st r1) scs2 v = true.
+Proof.
+  intros c s scs1 scs2 v Hcr Hf r1.
+  destruct (round_of_frame c s scs1 v) as (A & B & C). fold r1 in A, B, C.
+  destruct (round_of_flags c s scs1 v) as (_ & _ & D). fold r1 in D.
+  apply clean_round_writable.
+  - unfold crit_loc in *. fold (r_lay r1). now rewrite D, A.
+  - unfold full_success, reaches_compact, vac_of in *. fold (r_lay r1). now rewrite A, B.
+Qed.
+
+(* ---------- the confirmed defects ---------- *)
+Definition ok_script : script := {| sc_ck := CkOver; sc_cp := CpOk; sc_cm := CmOk |}.
+Definition sc (a : ck) (b : cp) (d : cm) : script := {| sc_ck := a; sc_cp := b; sc_cm := d |}.
+
+Definition stuck_history := [EFull 1 [vi 1 10 false]].
+Definition stuck_scripts : scripts := [(1, [(1, sc CkOver CpErr CmOk)])].
+Definition readmit_history := [EFull 1 [vi 1 10 false]; EFull 2 [vi 1 10 false]; EFull 2 [vi 1 10 true]].
+Definition readmit_scripts : scripts := [(1, [(1, ok_script); (2, ok_script)])].
+
+(* 0: a failed compaction leaves a healthy volume out of writables; the other
+   triggers are false on the witness *)
+Lemma refuted_stuck_witness :
+  let s := run cfg000 init stuck_history in
+  wf_history stuck_history /\
+  trigger_stuck stuck_scripts (s_lay s) 1 = true /\
+  trigger_readmit cfg000 (s_nodes s) stuck_scripts (s_lay s) 1 = false /\
+  trigger_hang stuck_scripts (s_lay s) 1 = false /\
+  writable s 1 = true /\ crit cfg000 (s_nodes s) 1 = true /\
+  writable_after cfg000 s stuck_scripts 1 = false.
+Proof. vm_compute; repeat split; reflexivity. Qed.
 
 (* 1: a clean commit re-admits a volume one of whose replicas is read-only *)
+Lemma refuted_readmit_witness :
+  let s := run cfg001 init readmit_history in
+  wf_history readmit_history /\
+  trigger_readmit cfg001 (s_nodes s) readmit_scripts (s_lay s) 1 = true /\
+  trigger_stuck readmit_scripts (s_lay s) 1 = false /\
+  trigger_hang readmit_scripts (s_lay s) 1 = false /\
+  writable s 1 = false /\ crit cfg001 (s_nodes s) 1 = false /\
+  writable_after cfg001 s readmit_scripts 1 = true.
+Proof. vm_compute; repeat split; reflexivity. Qed.
+
+Lemma writable_iff_refuted_stuck : ~ writable_iff cfg000.
+Proof.
+  intros H. specialize (H stuck_history eq_refl stuck_scripts 1).
+  vm_compute in H. specialize (H eq_refl). discriminate.
+Qed.
+
 Lemma writable_iff_refuted_readmit : ~ writable_iff cfg001.
 Proof.
-  intros H.
-  specialize (H [EFull 1 [vi 1 10 false]; EFull 2 [vi 1 10 false]; EFull 2 [vi 1 10 true]] eq_refl
-                [(1, [(1, ok_script); (2, ok_script)])] 1).
+  intros H. specialize (H readmit_history eq_refl readmit_scripts 1).
   vm_compute in H. specialize (H eq_refl). discriminate.
+Qed.
+
+Lemma writable_unchanged_refuted : ~ writable_unchanged cfg000 /\ ~ writable_unchanged cfg001.
+Proof.
+  split; intros H.
+  - specialize (H stuck_history eq_refl stuck_scripts 1). vm_compute in H. discriminate.
+  - specialize (H readmit_history eq_refl readmit_scripts 1). vm_compute in H. discriminate.
 Qed.
 
 (* ... or whose registered size is over the limit *)
 Lemma readmit_oversized_witness :
   let s := run cfg000 init [EFull 1 [vi 1 10 false]; EFull 1 [vi 1 150 false]; ECollect] in
   writable s 1 = false /\ crit cfg000 (s_nodes s) 1 = false /\
+  trigger_readmit cfg000 (s_nodes s) [(1, [(1, ok_script)])] (s_lay s) 1 = true /\
   writable_after cfg000 s [(1, [(1, ok_script)])] 1 = true.
 Proof. vm_compute; repeat split; reflexivity. Qed.
 
 (* the sequential commit loop is not atomic: replica 1 commits, replica 2 fails *)
 Lemma commit_not_atomic_witness :
   let s := run cfg001 init [EFull 1 [vi 1 10 false]; EFull 2 [vi 1 10 false]] in
-  let scs := [(1, [(1, ok_script); (2, {| sc_ck := CkOver; sc_cp := CpOk; sc_cm := CmErr |})])] in
+  let scs := [(1, [(1, ok_script); (2, sc CkOver CpOk CmErr)])] in
   let r := round_of cfg001 s scs 1 in
   committed (r_log r) scs 1 1 = true /\ committed (r_log r) scs 1 2 = false /\
   log_of (r_log r) 1 2 = [RCheck; RCompact; RCommit] /\ writable_after cfg001 s scs 1 = false.
 Proof. vm_compute; repeat split; reflexivity. Qed.
 
-(* non-vacuity of the partial theorem: a clean round on a healthy two-replica volume *)
+(* 2: the commit has no timer *)
+Definition hang_scripts : scripts := [(1, [(1, sc CkOver CpOk CmHang)])].
+Lemma hang_witness :
+  let s := run cfg000 init stuck_history in
+  let q1 := pass_step cfg000 (pstart s) {| p_pre := []; p_scs := hang_scripts; p_mid := [] |} in
+  let q2 := pass_step cfg000 q1 {| p_pre := []; p_scs := [(1, [(1, ok_script)])]; p_mid := [] |} in
+  trigger_hang hang_scripts (s_lay s) 1 = true /\
+  q_hung q1 = true /\ log_of (q_log q1) 1 1 = [RCheck; RCompact; RCommit] /\ writable (q_st q1) 1 = false /\
+  q_log q2 = [] /\ writable (q_st q2) 1 = false /\ crit cfg000 (s_nodes (q_st q2)) 1 = true.
+Proof. vm_compute; repeat split; reflexivity. Qed.
+
+(* 3: the layout loses the volume's entry while the replica compacts: nil dereference
+   in SetVolumeAvailable.  Nodes 1,2 hold vid 1, node 2 is under the threshold; while
+   node 1 compacts its stream ends and node 2 reports an empty volume list *)
+Definition panic_mid := [EDisconnect 1; EFull 2 []].
+Lemma panic_witness :
+  let s := run cfg001 init [EFull 1 [vi 1 10 false]; EFull 2 [vi 1 10 false]] in
+  let scs := [(1, [(1, ok_script); (2, sc CkUnder CpOk CmOk)])] in
+  let r := vacuum_round cfg001 s scs panic_mid 1 (lookup s 1) in
+  r_panic r = true /\ log_of (r_log r) 1 1 = [RCheck; RCompact; RCommit] /\ log_of (r_log r) 1 2 = [RCheck].
+Proof. vm_compute; repeat split; reflexivity. Qed.
+(* ... and without a disconnect: the volume is dropped and reported again *)
+Lemma panic_witness_readd :
+  let s := run cfg000 init stuck_history in
+  let r := vacuum_round cfg000 s [(1, [(1, ok_script)])] [EFull 1 []; EFull 1 [vi 1 10 false]] 1 (lookup s 1) in
+  r_panic r = true /\ writable (r_st r) 1 = true.
+Proof. vm_compute; repeat split; reflexivity. Qed.
+
+(* 4: a replica disconnects while it compacts; the clean commit puts the unlinked
+   DataNode object back into the location list and makes the volume writable *)
+Lemma readd_unlinked_witness :
+  let s := run cfg000 init stuck_history in
+  let mid := [EDisconnect 1] in
+  let r := vacuum_round cfg000 s [(1, [(1, ok_script)])] mid 1 (lookup s 1) in
+  let u := run cfg000 s mid in
+  r_panic r = false /\ lookup (r_st r) 1 = [1] /\ writable (r_st r) 1 = true /\ s_nodes (r_st r) = [] /\
+  lookup u 1 = [] /\ writable u 1 = false.
+Proof. vm_compute; repeat split; reflexivity. Qed.
+
+(* non-vacuity of the partial theorems: a clean round on a healthy two-replica volume *)
 Lemma clean_round_example :
   let es := [EFull 1 [vi 1 10 false]; EFull 2 [vi 1 10 false]] in
   let s := run cfg001 init es in
   let scs := [(1, [(1, ok_script); (2, ok_script)])] in
   wf_history es /\ trigger_stuck scs (s_lay s) 1 = false /\
-  trigger_readmit cfg001 (s_nodes s) scs (s_lay s) 1 = false /\
+  trigger_readmit cfg001 (s_nodes s) scs (s_lay s) 1 = false /\ trigger_hang scs (s_lay s) 1 = false /\
   writable s 1 = true /\ crit cfg001 (s_nodes s) 1 = true /\ writable_after cfg001 s scs 1 = true /\
   log_of (r_log (round_of cfg001 s scs 1)) 1 2 = [RCheck; RCompact; RCommit].
+Proof. vm_compute; repeat split; reflexivity. Qed.
+
+(* non-vacuity of recovers_on_next_clean_round: failed round, then a clean one *)
+Lemma recovers_example :
+  let s := run cfg000 init stuck_history in
+  let r1 := round_of cfg000 s stuck_scripts 1 in
+  crit_loc cfg000 (s_nodes s) (s_lay s) 1 = true /\ full_success [(1, [(1, ok_script)])] (s_lay s) 1 = true /\
+  writable s 1 = true /\ writable (r_st r1) 1 = false /\
+  writable_after cfg000 (r_st r1) [(1, [(1, ok_script)])] 1 = true.
 Proof. vm_compute; repeat split; reflexivity. Qed.
